@@ -64,6 +64,13 @@ def gen_retry(repo):
     if inc is None:
         raise Skip('retry_func: handler has no `attempt += <int>`')
     sleep_in_handler = contains_sleep(h.body)
+    # does the handler read an attribute of the retried callable (e.g. `func.__name__` in the log message)?  A callable without
+    # that attribute (functools.partial, an instance with __call__) then makes the handler itself raise AttributeError
+    needs_name = any(isinstance(x, ast.Attribute) and isinstance(x.value, ast.Name) and x.value.id == 'func'
+                     for st in h.body for x in ast.walk(st))
+    # the sleep duration is the caller's `sleep_time`
+    sleeps = [x for st in h.body for x in ast.walk(st) if isinstance(x, ast.Call) and ast.unparse(x.func) in ('time.sleep', 'sleep')]
+    sleep_arg_ok = all(len(x.args) == 1 and ast.unparse(x.args[0]) == 'sleep_time.total_seconds()' for x in sleeps)
     others = body[:widx] + body[widx + 1:]
     sleep_elsewhere = contains_sleep(others) or contains_sleep(tr.body)
     after = body[widx + 1:]
@@ -83,6 +90,10 @@ def inc : Int := {inc}
 def handlerIsExceptionsParam : Bool := {lean_bool(handler_is_param)}
 /-- `time.sleep(...)` occurs in the handler (after a failed attempt) -/
 def sleepInHandler : Bool := {lean_bool(sleep_in_handler)}
+/-- the handler reads an attribute of `func` (a callable object without it makes the handler raise) -/
+def handlerNeedsName : Bool := {lean_bool(needs_name)}
+/-- every sleep waits `sleep_time.total_seconds()` -/
+def sleepArgIsSleepTime : Bool := {lean_bool(sleep_arg_ok)}
 /-- `time.sleep(...)` occurs anywhere else in the function -/
 def sleepElsewhere : Bool := {lean_bool(sleep_elsewhere)}
 /-- the statement after the loop is `return func(*args, **kwargs)` -/
